@@ -3,6 +3,7 @@
 package main
 
 import (
+	"runtime"
 	"flag"
 	"fmt"
 	"os"
@@ -49,6 +50,33 @@ func main() {
 			os.Exit(2)
 		}
 		r := &Run{ID: id, Tier: *tier, Seed: seed, Scratch: *scratch, Repo: *repo, Verif: *verif, t0: time.Now(), pool: smt.NewPool(*workers), Bounds: map[string]any{}, Extra: map[string]any{}}
+		// emergency exit: a symbolic blow-up must not end in a kill by the system with nothing reported; what was
+		// decided so far is written out (violations found are real; the rest of the run is inconclusive)
+		go func() {
+			limit := uint64(20) << 30
+			if g := os.Getenv("VERIF_MEM_GB"); g != "" {
+				if v, err := strconv.ParseUint(g, 10, 64); err == nil && v > 0 {
+					limit = v << 30
+				}
+			}
+			var ms runtime.MemStats
+			for {
+				time.Sleep(700 * time.Millisecond)
+				runtime.ReadMemStats(&ms)
+				if ms.HeapAlloc > limit {
+					fmt.Printf("INCONCLUSIVE property=%s stopped early: the harness reached its memory limit (%d GiB) - results so far follow\n", id, limit>>30)
+					code := 2
+					func() {
+						defer func() { recover() }()
+						r.aborted = true
+						if c := r.finish(false); c == 1 {
+							code = 1
+						}
+					}()
+					os.Exit(code)
+				}
+			}
+		}()
 		code := func() (code int) {
 			defer func() {
 				if e := recover(); e != nil {
